@@ -27,6 +27,9 @@ func vMakeBuffer(mode int) *Buffer {
 	return b
 }
 
+func vMakeBufferLen(n int) *Buffer { return &Buffer{stackBuf: make([]int, n)} }
+func vBufferCap(b *Buffer) int      { return cap(b.stackBuf) }
+
 // ---- C01 ---------------------------------------------------------------
 func vH_C01(data []byte, bufmode int) {
 	got := Valid(data, vMakeBuffer(bufmode))
@@ -1571,4 +1574,19 @@ func vH_C04_api(data []byte) {
 		g, ok := arr[0].(float64)
 		vAssert(ok && vFloatSame(g, f), "C04.api-array-leaf-same-bits")
 	}
+}
+
+// ---- C20: one growth step of the nesting stack is amortised ---------------------------------------
+// A Buffer whose stack holds L entries; an array nested L+2 deep is traversed with a handler that declines
+// every member, so the machine itself descends and must grow the stack once or twice at fill level L.
+func vH_C20_stackstep(doc []byte, L int) {
+	buf := vMakeBufferLen(L)
+	var hh vHandler
+	hh.mode = 4
+	vCostReset()
+	HandleArrayValues(doc, &hh, buf)
+	cost := vCostBytes()
+	vReach("C20.stackstep")
+	slack := vBufferCap(buf) - L
+	vAssertCost(cost <= 8*8*(slack+1)+4096, "C20.stack-growth-step-amortised")
 }
